@@ -1,6 +1,217 @@
-"""C13: `fitting.elliptical_gaussian` (own copy, Gen.C13.gauss), the objective whose evenness in `amp`
-(`objective_even`, `residual_negation`) makes the negated fitting problem the mirror image of the original."""
+"""C13: regenerated pieces.
+
+  gauss                      `fitting.elliptical_gaussian` (own copy): the objective whose oddness in `amp`
+                             (`objective_even`, `residual_negation`) makes the negated fitting problem the mirror image.
+  ampMinPos / ampMaxPos      the two amplitude bounds `estimate_lmfit_parinfo` assigns in the branch `amp > 0`
+  ampMinNeg / ampMaxNeg      the two it assigns in the other branch (whichever order the tuple target has them in)
+  summitArgPos / summitArgNeg   the thresholded quantity of the summit masks: `data - outerclip*rmsimg` (compared `> 0`,
+                             positive island) and `data + outerclip*rmsimg` (compared `< 0`, negative island)
+
+The bounds and the summit arguments are *sliced*: the AST of `SourceFinder.estimate_lmfit_parinfo` in the tree under test
+($AEGEAN_REPO, default /repo) is searched for
+
+  * the `if` whose test is `amp > 0` (also `0 < amp`; or `amp <= 0` / `0 >= amp` with the branches exchanged) and whose two
+    branches each consist of one tuple assignment to the names {amp_min, amp_max};
+  * the `if isnegative:` whose two branches each assign `kappa_sigma = np.where(<curve test>, np.where(<arg> <op> 0, data,
+    np.nan), np.nan)` with `<curve test>` = `curve > 0.5` / `<arg> < 0` in the negative branch and `-1 * curve > 0.5` (or
+    `-curve > 0.5`, `curve < -0.5`) / `<arg> > 0` in the positive branch;
+
+and the pieces are written as small straight-line Python functions into a scratch file which the translator (real mode)
+turns into Lean.  The comparison structure itself (which branch is which, `<`/`>` against 0, the curvature test) is checked
+by the slicer and is hand-written glue in the model (`ampBoundsG`, `summitMaskG`); anything the slicer does not recognise is
+written as a call the translator rejects, so the piece is reported UNTRANSLATABLE, the `…Hand` definitions of
+Aegean/Model/C13.lean stand in and only the correspondence ties that piece to the code.
+"""
+import ast
+import hashlib
+import os
+import tempfile
+
+import py2lean
+
+_SF = 'AegeanTools/source_finder.py'
 _G = ['x', 'y', 'amp', 'xo', 'yo', 'sx', 'sy', 'theta']
+
+
+def _with_minmax(orig):
+    """extension of py2lean.Translator.expr_real (extended copy lives in the targets file, as the guide allows): the Python
+    builtins `min(a, b)` / `max(a, b)` with exactly two positional arguments become `R.min` / `R.max` (equal to the builtins
+    on non-NaN values).  Everything else is delegated unchanged."""
+    def expr_real(self, node):
+        if isinstance(node, ast.Call) and isinstance(node.func, ast.Name) and node.func.id in ('min', 'max') \
+                and len(node.args) == 2 and not node.keywords and node.func.id not in self.calls:
+            a, _, da = self.expr(node.args[0])
+            b, _, db = self.expr(node.args[1])
+            return f"(R.{node.func.id} {a} {b})", 'A', da | db
+        return orig(self, node)
+    expr_real._c13_minmax = True
+    return expr_real
+
+
+if not getattr(py2lean.Translator.expr_real, '_c13_minmax', False):
+    py2lean.Translator.expr_real = _with_minmax(py2lean.Translator.expr_real)
+
+
+# ---------------------------------------------------------------- slicing ------------------------------------------------
+
+_BAD = "    {} = __unrecognised__({!r})\n"
+
+
+def _is_zero(n):
+    return isinstance(n, ast.Constant) and not isinstance(n.value, bool) and n.value == 0
+
+
+def _is_name(n, name):
+    return isinstance(n, ast.Name) and n.id == name
+
+
+def _amp_test(test):
+    """'pos' if the test is true exactly for amp > 0, 'nonpos' if it is true exactly for amp <= 0, else None"""
+    if not (isinstance(test, ast.Compare) and len(test.ops) == 1 and len(test.comparators) == 1):
+        return None
+    l, op, r = test.left, test.ops[0], test.comparators[0]
+    if _is_name(l, 'amp') and _is_zero(r):
+        return 'pos' if isinstance(op, ast.Gt) else 'nonpos' if isinstance(op, ast.LtE) else None
+    if _is_zero(l) and _is_name(r, 'amp'):
+        return 'pos' if isinstance(op, ast.Lt) else 'nonpos' if isinstance(op, ast.GtE) else None
+    return None
+
+
+def _bounds_assign(stmts):
+    """the single statement `a, b = (e1, e2)` with {a, b} = {amp_min, amp_max}; returns its source or None"""
+    stmts = [s for s in stmts if not isinstance(s, (ast.Pass,)) and not (isinstance(s, ast.Expr) and isinstance(s.value, ast.Constant))]
+    if len(stmts) == 2 and all(isinstance(s, ast.Assign) and len(s.targets) == 1 and isinstance(s.targets[0], ast.Name)
+                               for s in stmts) and {s.targets[0].id for s in stmts} == {'amp_min', 'amp_max'}:
+        # two separate assignments are as good as the tuple, provided the second does not read the first
+        names = {n.id for n in ast.walk(stmts[1].value) if isinstance(n, ast.Name)}
+        if stmts[0].targets[0].id not in names:
+            return "\n".join("    " + ast.unparse(s) for s in stmts) + "\n"
+        return None
+    if len(stmts) != 1 or not isinstance(stmts[0], ast.Assign) or len(stmts[0].targets) != 1:
+        return None
+    t, v = stmts[0].targets[0], stmts[0].value
+    if not (isinstance(t, ast.Tuple) and isinstance(v, ast.Tuple) and len(t.elts) == 2 and len(v.elts) == 2):
+        return None
+    if not all(isinstance(e, ast.Name) for e in t.elts) or {e.id for e in t.elts} != {'amp_min', 'amp_max'}:
+        return None
+    return "    " + ast.unparse(stmts[0]) + "\n"
+
+
+def _amp_slice(fn):
+    head_p = "def amp_pos(amp, r, innerclip, outerclip, sampling):\n"
+    head_n = "def amp_neg(amp, r, innerclip, outerclip, sampling):\n"
+    found = []
+    for node in ast.walk(fn):
+        if isinstance(node, ast.If) and _amp_test(node.test):
+            a, b = _bounds_assign(node.body), _bounds_assign(node.orelse)
+            if a and b:
+                found.append((node, a, b))
+    if len(found) != 1:
+        why = f"{len(found)} statements of the form `if amp > 0: amp_min, amp_max = … else: …`"
+        bad = _BAD.format('amp_min', why) + _BAD.format('amp_max', why)
+        return head_p + bad + "    return amp\n\n" + head_n + bad + "    return amp\n"
+    node, a, b = found[0]
+    pos, neg = (a, b) if _amp_test(node.test) == 'pos' else (b, a)
+    return head_p + pos + "    return amp_min\n\n" + head_n + neg + "    return amp_min\n"
+
+
+def _np_where(call):
+    return isinstance(call, ast.Call) and isinstance(call.func, ast.Attribute) and call.func.attr == 'where' \
+        and isinstance(call.func.value, ast.Name) and call.func.value.id in ('np', 'numpy') and len(call.args) == 3 \
+        and not call.keywords
+
+
+def _is_nan(n):
+    return isinstance(n, ast.Attribute) and n.attr in ('nan', 'NaN') and isinstance(n.value, ast.Name) \
+        and n.value.id in ('np', 'numpy')
+
+
+def _curve_sign(test):
+    """+1 for `curve > 0.5`, -1 for `-1*curve > 0.5` / `-curve > 0.5` / `curve < -0.5`, else None"""
+    if not (isinstance(test, ast.Compare) and len(test.ops) == 1):
+        return None
+    l, op, r = test.left, test.ops[0], test.comparators[0]
+    half = isinstance(r, ast.Constant) and r.value == 0.5
+    mhalf = (isinstance(r, ast.UnaryOp) and isinstance(r.op, ast.USub) and isinstance(r.operand, ast.Constant)
+             and r.operand.value == 0.5) or (isinstance(r, ast.Constant) and r.value == -0.5)
+    if _is_name(l, 'curve') and isinstance(op, ast.Gt) and half:
+        return 1
+    if _is_name(l, 'curve') and isinstance(op, ast.Lt) and mhalf:
+        return -1
+    neg_curve = (isinstance(l, ast.UnaryOp) and isinstance(l.op, ast.USub) and _is_name(l.operand, 'curve')) or \
+        (isinstance(l, ast.BinOp) and isinstance(l.op, ast.Mult) and (
+            (isinstance(l.left, ast.Constant) and l.left.value == -1 and _is_name(l.right, 'curve')) or
+            (isinstance(l.left, ast.UnaryOp) and isinstance(l.left.op, ast.USub) and isinstance(l.left.operand, ast.Constant)
+             and l.left.operand.value == 1 and _is_name(l.right, 'curve')) or
+            (_is_name(l.left, 'curve') and isinstance(l.right, ast.UnaryOp) and isinstance(l.right.op, ast.USub)
+             and isinstance(l.right.operand, ast.Constant) and l.right.operand.value == 1)))
+    if neg_curve and isinstance(op, ast.Gt) and half:
+        return -1
+    return None
+
+
+def _kappa(stmts, want_curve, want_op):
+    """`kappa_sigma = np.where(<curve test>, np.where(<arg> <op> 0, data, np.nan), np.nan)`; returns source of <arg>"""
+    stmts = [s for s in stmts if not (isinstance(s, ast.Expr) and isinstance(s.value, ast.Constant))]
+    if len(stmts) != 1 or not isinstance(stmts[0], ast.Assign) or len(stmts[0].targets) != 1 \
+            or not _is_name(stmts[0].targets[0], 'kappa_sigma'):
+        return None
+    outer = stmts[0].value
+    if not _np_where(outer) or not _is_nan(outer.args[2]) or _curve_sign(outer.args[0]) != want_curve:
+        return None
+    inner = outer.args[1]
+    if not _np_where(inner) or not _is_name(inner.args[1], 'data') or not _is_nan(inner.args[2]):
+        return None
+    t = inner.args[0]
+    if not (isinstance(t, ast.Compare) and len(t.ops) == 1 and isinstance(t.ops[0], want_op) and _is_zero(t.comparators[0])):
+        return None
+    return ast.unparse(t.left)
+
+
+def _summit_slice(fn):
+    head_p = "def summit_pos(data, rmsimg, innerclip, outerclip):\n"
+    head_n = "def summit_neg(data, rmsimg, innerclip, outerclip):\n"
+    found = []
+    for node in ast.walk(fn):
+        if isinstance(node, ast.If) and _is_name(node.test, 'isnegative') and node.orelse:
+            n, p = _kappa(node.body, 1, ast.Lt), _kappa(node.orelse, -1, ast.Gt)
+            if n and p:
+                found.append((p, n))
+    if len(found) != 1:
+        why = f"{len(found)} statements of the form `if isnegative: kappa_sigma = np.where(…) else: …`"
+        bad = _BAD.format('arg', why)
+        return head_p + bad + "    return data\n\n" + head_n + bad + "    return data\n"
+    p, n = found[0]
+    return head_p + f"    arg = {p}\n    return arg\n\n" + head_n + f"    arg = {n}\n    return arg\n"
+
+
+def _slices():
+    repo = os.environ.get('AEGEAN_REPO', '/repo')
+    try:
+        tree = ast.parse(open(os.path.join(repo, _SF)).read())
+        fn = [n for n in ast.walk(tree) if isinstance(n, ast.FunctionDef) and n.name == 'estimate_lmfit_parinfo'][0]
+        text = _amp_slice(fn) + "\n\n" + _summit_slice(fn)
+    except Exception as exc:
+        text = f"# slicing failed: {exc!r}\n"
+    d = os.path.join(tempfile.gettempdir(), 'verif-C13-slices')
+    os.makedirs(d, exist_ok=True)
+    path = os.path.join(d, 'estimate_lmfit_parinfo_' + hashlib.sha1(text.encode()).hexdigest()[:12] + '.py')
+    if not os.path.exists(path):
+        with open(path + '.tmp%d' % os.getpid(), 'w') as f:
+            f.write(text)
+        os.replace(path + '.tmp%d' % os.getpid(), path)
+    return path
+
+
+_S = _slices()
+_M = 'Aegean.Model.C13.'
+_AP = ['amp', 'r', 'innerclip', 'outerclip', 'sampling']
+_KP = ['data', 'rmsimg', 'innerclip', 'outerclip']
+
+
+def _fb(name, params):
+    return f"def {name} {{α : Type}} [R α] ({' '.join(params)} : α) : α := {_M}{name}Hand {' '.join(params)}"
+
 
 TARGETS = [
     dict(file='AegeanTools/fitting.py', func='elliptical_gaussian', mode='real',
@@ -8,4 +219,14 @@ TARGETS = [
          fallback={'gauss': 'def gauss {α : Type} [R α] (x y amp xo yo sx sy theta : α) : α := '
                             'Aegean.Model.C13.gaussHand x y amp xo yo sx sy theta'},
          all_params=_G),
+    dict(file=_S, func='amp_pos', mode='real', params={p: 'A' for p in _AP}, subst={'rmsimg[xo, yo]': 'r'},
+         outputs=[('amp_min', 'ampMinPos'), ('amp_max', 'ampMaxPos')],
+         fallback={'ampMinPos': _fb('ampMinPos', _AP), 'ampMaxPos': _fb('ampMaxPos', _AP)}, all_params=_AP),
+    dict(file=_S, func='amp_neg', mode='real', params={p: 'A' for p in _AP}, subst={'rmsimg[xo, yo]': 'r'},
+         outputs=[('amp_min', 'ampMinNeg'), ('amp_max', 'ampMaxNeg')],
+         fallback={'ampMinNeg': _fb('ampMinNeg', _AP), 'ampMaxNeg': _fb('ampMaxNeg', _AP)}, all_params=_AP),
+    dict(file=_S, func='summit_pos', mode='real', params={p: 'A' for p in _KP},
+         outputs=[('arg', 'summitArgPos')], fallback={'summitArgPos': _fb('summitArgPos', _KP)}, all_params=_KP),
+    dict(file=_S, func='summit_neg', mode='real', params={p: 'A' for p in _KP},
+         outputs=[('arg', 'summitArgNeg')], fallback={'summitArgNeg': _fb('summitArgNeg', _KP)}, all_params=_KP),
 ]
